@@ -149,10 +149,16 @@ def main():
     dst = os.path.join(V, "seeded", dstname or pid)
     if ok:
         os.makedirs(dst, exist_ok=True)
-        shutil.copy(patch, os.path.join(dst, "patch.diff"))
-        shutil.copy(demo, os.path.join(dst, "demo.py"))
+        if os.path.abspath(src) != os.path.abspath(dst):
+            shutil.copy(patch, os.path.join(dst, "patch.diff"))
+            shutil.copy(demo, os.path.join(dst, "demo.py"))
+        elif not suite and "suite_ok" in meta.get("verification", {}):
+            # in-place re-verification without the suite: keep the earlier suite record
+            for k in ("suite_ok", "suite_missing_first_run", "suite_missing_after_rerun", "suite_flaky_on_clean_tree_too"):
+                if k in meta["verification"]:
+                    result.setdefault(k, meta["verification"][k])
         meta_out = {"property": pid, "summary": meta.get("summary"), "needs": meta.get("needs"),
-                    "seeder_ran": meta.get("ran"), "verification": result}
+                    "seeder_ran": meta.get("seeder_ran", meta.get("ran")), "verification": result}
         json.dump(meta_out, open(os.path.join(dst, "meta.json"), "w"), indent=1)
     print(json.dumps(result, indent=1))
     return 0 if ok else 1
